@@ -27,7 +27,8 @@ RULE = ("generated geometries x option sets (both APIs, all methods) with a HIST
         "(speed >= 6 / split_mesh_on_seams), Edgebreaker on handle-rich topologies into application-used buffers; corpus streams (legacy writers) through op `det_dec`. Cross-process: the "
         "same op file in separate processes under ASLR on/off, MALLOC_PERTURB_ 0/165/255, MALLOC_ARENA_MAX=1, "
         "MALLOC_MMAP_THRESHOLD_ 4096 / 1 GiB, two pre-fragmented dirty heaps: every output line must be identical; "
-        "thorough: a subset under valgrind memcheck (undefined-value errors end the run); non-trivial = distinct op line")
+        "thorough: a subset under valgrind memcheck (undefined-value errors end the run); non-trivial = distinct op line"
+        '; Encoder::Reset() before the main job (token reset=1)')
 THEOREM_BACKED = ('decode_is_a_function (trivial); expert_encoder_state_irrelevant / encoder_state_irrelevant / '
                   'expert_reused_eq_fresh / encoder_reused_eq_fresh / decoder_state_irrelevant (API objects as state '
                   'machines: the output of call n is a function of the setter calls and the geometry / bytes only); '
